@@ -4,7 +4,7 @@ import re
 from analysis import (Prov, Guards, fmt, fmt_short, walk, roots, short, comparison, find_calls, callee_matches,
                       must_pass, path_to, describe_path, peel_await, edge_label, field_writes)
 from facts import AnchorError, strip_closure
-from harness import Rule
+from harness import Rule, guarded
 import c13
 from c01 import body_of, derives, bool_pass_edges, H, S
 from c04 import option_some_edge
@@ -272,5 +272,5 @@ def r5(ctx):
 
 
 def run(ctx):
-    a, b = r3_r4(ctx)
-    return [r1(ctx), r2(ctx), a, b, r5(ctx)]
+    G = lambda l, f, *a: guarded("C03." + l, f, ctx, *a)
+    return G("R1", r1) + G("R2", r2) + G("R3-R4", r3_r4) + G("R5", r5)
